@@ -557,14 +557,15 @@ def _queue_frame_fact():
 
 
 def _connection_frame_fact():
-    """Frame condition of lemmas/Conn.lean: in the real socket.py `open_connection` is called only by _connect and
-    `_reader` / `_writer` are assigned only by __init__, _connect and _disconnect."""
+    """Frame condition of lemmas/Conn.lean: in the real socket.py `open_connection` is called only by _connect,
+    `_reader` / `_writer` are assigned only by __init__, _connect and _disconnect, `is_open` only by __init__, close and open_socket."""
     import ast
     tree = ast.parse(open(os.path.join(REPO, "pyairtouch", "comms", "socket.py")).read())
     bad = []
     for cls in [n for n in ast.walk(tree) if isinstance(n, ast.ClassDef)]:
         c_ok = _only_called_from(cls, ["_connect"])
         rw_ok = _only_called_from(cls, ["_connect", "_disconnect"])
+        io_ok = _only_called_from(cls, ["close", "open_socket"])
         for fn in [n for n in ast.walk(cls) if isinstance(n, (ast.FunctionDef, ast.AsyncFunctionDef))]:
             for n in ast.walk(fn):
                 if isinstance(n, ast.Call) and isinstance(n.func, ast.Attribute) and n.func.attr in ("open_connection", "start_server", "create_connection") \
@@ -578,6 +579,8 @@ def _connection_frame_fact():
                     for t in flat:
                         if isinstance(t, ast.Attribute) and t.attr in ("_reader", "_writer") and fn.name != "__init__" and fn.name not in rw_ok:
                             bad.append(f"{fn.name}: assignment to {t.attr}")
+                        if isinstance(t, ast.Attribute) and t.attr == "is_open" and fn.name != "__init__" and fn.name not in io_ok:
+                            bad.append(f"{fn.name}: assignment to is_open")
     return bad
 
 
